@@ -324,7 +324,13 @@ pub mod spec {
     
     /// C01's resource envelope: every stack, vector and record is smaller than 2^31-1 items.
     /// (C15 is about the envelope itself.)  It is the only global precondition of instruction units.
+    /// data-structure invariants of the state (the three ring buffers); proved preserved by every instruction row
+    pub open spec fn state_wf(s: crate::push::state::PushState) -> bool {
+        s.input_stack.wf() && s.output_stack.wf() && s.graph_stack.wf()
+        && s.input_stack.is_queue() && s.output_stack.is_queue() && !s.graph_stack.is_queue()
+    }
     pub open spec fn envelope(s: crate::push::state::PushState) -> bool {
+        &&& state_wf(s)
         &&& s.bool_stack@.len() < 0x7fff_ffff
         &&& s.code_stack@.len() < 0x7fff_ffff
         &&& s.exec_stack@.len() < 0x7fff_ffff
@@ -335,6 +341,7 @@ pub mod spec {
         &&& s.bool_vector_stack@.len() < 0x7fff_ffff
         &&& s.float_vector_stack@.len() < 0x7fff_ffff
         &&& s.int_vector_stack@.len() < 0x7fff_ffff
+        &&& forall|i: int| 0 <= i < s.input_stack.n() ==> (#[trigger] s.input_stack.live()[i]).body.values@.len() < 0x7fff_ffff
         &&& forall|i: int| 0 <= i < s.bool_vector_stack@.len() ==> (#[trigger] s.bool_vector_stack@[i]).values@.len() < 0x7fff_ffff
         &&& forall|i: int| 0 <= i < s.int_vector_stack@.len() ==> (#[trigger] s.int_vector_stack@[i]).values@.len() < 0x7fff_ffff
         &&& forall|i: int| 0 <= i < s.float_vector_stack@.len() ==> (#[trigger] s.float_vector_stack@[i]).values@.len() < 0x7fff_ffff
